@@ -63,6 +63,7 @@ class CreatedRequestCache(NumberCacheWithName):
         self.candidates = candidates
         self.timeout = timeout
         self.extend_identifier: int | None = None
+        self.extended_identifier: int | None = None
 
     @property
     def timeout_delay(self) -> float:
